@@ -9,7 +9,7 @@ PREFIX = {
  "D6": "fix: rows are dropped by position", "D7": "fix: structured model specs honour", "D8": "fix: ModelSpec.get_model_matrix forwards", "D9": "fix: hashed() drops the rows",
  "D28": "fix: the narwhals materializer keeps declared", "D4": "fix: the pandas materializer treats dedicated", "D16": "fix: the narwhals materializer passes boolean",
  "D11": "fix: the kind guard sees", "D13": "fix: exp10(x) is 10**x", "D14": "fix: Formula.required_variables handles", "D17": "fix: materializing never writes state",
- "D22": "fix: B-splines propagate missing", "D23": "fix: cyclic cubic splines on three knots", "D29": "fix: natural cubic splines without inner knots", "D32": "fix: pickling or deep-copying an operator resolver", "D34": "fix: multistage formulas yield an ordered set", "D35": "fix: backtick-quoted names inside python fragments", "D36": "fix: a stateful transform called twice in one factor", "D38": "fix: a method call on a column counts", "D39": "fix: a materializer instance can be used for more than one", "D40": "fix: required variables of python factors that quote", "D41": "fix: '.' leaves out a column the left-hand side reads", "D42": "fix: scale and center compute in floating point", "D43": "fix: poly(raw=True) computes the powers", "D44": "fix: cyclic cubic splines wrap integer data", "D45": "fix: the centering constraint of cubic splines is taken over", "D46": "fix: a slice of a formula can be replaced", "D47": "fix: differentiating a materialized model spec", "D48": "fix: a term scaled by zero does not stand in", "D49": "fix: indicator columns of string-dtype categories", "D50": "fix: the pandas materializer treats Arrow dictionary", "D51": "fix: NaN in a float column of a narwhals frame", "D52": "fix: a dict of columns is dispatched", "D53": "fix: a quoted column named like a python keyword", "D54": "fix: a quoted `.` names a column", "D55": "fix: the exponent of ** and ^ is an integer literal", "D56": "fix: a quoted `~` is a column name", "D57": "fix: constraint specifications may put a sign", "D58": "fix: an empty mapping of constraints", "D59": "fix: every part of a structured spec records", "D60": "fix: lag() works under the narwhals materializer", "D61": "fix: integer columns enter the model matrix", "D62": "fix: a quoted name used twice in one expression", "D63": "fix: transform state is recorded under the call", "D64": "fix: hashed() can be applied to an empty column", "D65": "fix: an exponent that is not a readable literal", "D66": "fix: an exponent larger than the number of terms", "D67": "fix: a Python fragment that Python cannot read", "D68": "fix: a string literal ending in an escaped backslash", "D69": "fix: quote characters inside a quoted name", "D70": "fix: the source of a quoted column whose name contains a dot", "D71": "fix: the narwhals materializer keeps the index labels", "D72": "fix: nulls are found in arrays of strings and objects", "D73": "fix: a one-level factor with explicit contrasts contributes no columns", "D74": "fix: contrasts other than treatment can be applied to a numpy", "D75": "fix: the sparse coefficient matrix of a one-level factor", "D76": "fix: a quoted column whose name starts like a transform", "D77": "fix: placeholders of quoted names are made of characters", "D78": "fix: an error about an expression that contains rewritten tokens", "D79": "fix: placeholders of quoted names survive Python",
+ "D22": "fix: B-splines propagate missing", "D23": "fix: cyclic cubic splines on three knots", "D29": "fix: natural cubic splines without inner knots", "D32": "fix: pickling or deep-copying an operator resolver", "D34": "fix: multistage formulas yield an ordered set", "D35": "fix: backtick-quoted names inside python fragments", "D36": "fix: a stateful transform called twice in one factor", "D38": "fix: a method call on a column counts", "D39": "fix: a materializer instance can be used for more than one", "D40": "fix: required variables of python factors that quote", "D41": "fix: '.' leaves out a column the left-hand side reads", "D42": "fix: scale and center compute in floating point", "D43": "fix: poly(raw=True) computes the powers", "D44": "fix: cyclic cubic splines wrap integer data", "D45": "fix: the centering constraint of cubic splines is taken over", "D46": "fix: a slice of a formula can be replaced", "D47": "fix: differentiating a materialized model spec", "D48": "fix: a term scaled by zero does not stand in", "D49": "fix: indicator columns of string-dtype categories", "D50": "fix: the pandas materializer treats Arrow dictionary", "D51": "fix: NaN in a float column of a narwhals frame", "D52": "fix: a dict of columns is dispatched", "D53": "fix: a quoted column named like a python keyword", "D54": "fix: a quoted `.` names a column", "D55": "fix: the exponent of ** and ^ is an integer literal", "D56": "fix: a quoted `~` is a column name", "D57": "fix: constraint specifications may put a sign", "D58": "fix: an empty mapping of constraints", "D59": "fix: every part of a structured spec records", "D60": "fix: lag() works under the narwhals materializer", "D61": "fix: integer columns enter the model matrix", "D62": "fix: a quoted name used twice in one expression", "D63": "fix: transform state is recorded under the call", "D64": "fix: hashed() can be applied to an empty column", "D65": "fix: an exponent that is not a readable literal", "D66": "fix: an exponent larger than the number of terms", "D67": "fix: a Python fragment that Python cannot read", "D68": "fix: a string literal ending in an escaped backslash", "D69": "fix: quote characters inside a quoted name", "D70": "fix: the source of a quoted column whose name contains a dot", "D71": "fix: the narwhals materializer keeps the index labels", "D72": "fix: nulls are found in arrays of strings and objects", "D73": "fix: a one-level factor with explicit contrasts contributes no columns", "D74": "fix: contrasts other than treatment can be applied to a numpy", "D75": "fix: the sparse coefficient matrix of a one-level factor", "D76": "fix: a quoted column whose name starts like a transform", "D77": "fix: placeholders of quoted names are made of characters", "D78": "fix: an error about an expression that contains rewritten tokens", "D79": "fix: placeholders of quoted names survive Python", "D80": "fix: an error about an expression that contains the wildcard",
 }
 subj = {}
 for l in subprocess.run(["git", "-C", "/repo", "log", "--format=%h %s"], capture_output=True, text=True).stdout.strip().split("\n"):
